@@ -294,6 +294,21 @@ fn twin_datetime(r: &mut Rng) {
             chk!("DateTime::from_timestamp_millis/micros/nanos", (x, name), got, Ok(if ok { Some((secs, sub)) } else { None }));
         }
     }
+    // conversion to and from the system clock type preserves the instant (both sides of the epoch, whole and fractional seconds)
+    {
+        use std::time::{Duration, SystemTime, UNIX_EPOCH};
+        for secs in [0u64, 1, 2, 59, 60, 61, 86_399, 86_400, 1_000_000_000, 4_102_444_800, 253_402_300_799, 8_000_000_000_000] { for ns in [0u32, 1, 500_000_000, 999_999_999] { for before in [false, true] {
+            let d = Duration::new(secs, ns);
+            let st = if before { UNIX_EPOCH.checked_sub(d) } else { UNIX_EPOCH.checked_add(d) };
+            let st = match st { Some(s) => s, None => continue };
+            let want = if before { -(secs as i128 * 1_000_000_000 + ns as i128) } else { secs as i128 * 1_000_000_000 + ns as i128 };
+            chk!("DateTime<Utc>::from(SystemTime)", (secs, ns, before), guard(|| { let dt = DateTime::<Utc>::from(st); dt.timestamp() as i128 * 1_000_000_000 + dt.timestamp_subsec_nanos() as i128 }), Ok(want));
+            if let Ok(dt) = guard(|| DateTime::<Utc>::from(st)) {
+                chk!("SystemTime::from(DateTime)", (secs, ns, before), guard(|| SystemTime::from(dt)), Ok(st));
+                chk!("SystemTime::from(DateTime<FixedOffset>)", (secs, ns, before), guard(|| SystemTime::from(dt.with_timezone(&FixedOffset::east_opt(3600).unwrap()))), Ok(st));
+            }
+        } } }
+    }
     let xs = ndt_grid(r); let ds = td_small_grid(r);
     for &x in &xs {
         let dt = x.and_utc();
